@@ -23,7 +23,7 @@ func (fe *FE) tagsOf(c *Clause) []string {
 		// clause tags narrowed to the properties this function serves (templates carry tags for several)
 		var out []string
 		for _, t := range c.Tags {
-			if hasTag(fe.C.Props, t) {
+			if hasTag(fe.C.Props, t) || hasTag(fe.C.AlsoProps, t) {
 				out = append(out, t)
 			}
 		}
